@@ -123,39 +123,8 @@ func c19FreshStat(r *Run) {
 				}
 				nOut++
 				okFresh := true
-				out := stripConv(ret.Results[i])
-				if mi, ok := out.(*ssa.MakeInterface); ok {
-					out = stripConv(mi.X)
-				}
-				for _, alt := range phiAlternatives(out, 2) {
-					v := stripConv(alt)
-					if mi, ok := v.(*ssa.MakeInterface); ok {
-						v = stripConv(mi.X)
-					}
-					fresh := false
-					switch x := v.(type) {
-					case *ssa.Extract:
-						if c, ok := x.Tuple.(*ssa.Call); ok && x.Index == 0 {
-							if g := staticCallee(&c.Call); g != nil && g.Name() == "newRef" {
-								fresh = true
-							}
-						}
-					case *ssa.Call:
-						if g := staticCallee(&x.Call); g != nil && g.Name() == "newRef" {
-							fresh = true
-						}
-					case *ssa.Alloc:
-						if flds, _, ok := allocFields(x); ok {
-							if _, isLit := flds["Path"]; isLit {
-								fresh = true // a literal: its Info is checked above
-							}
-						}
-					case *ssa.Const:
-						fresh = x.Value == nil
-					}
-					if !fresh {
-						okFresh = false
-					}
+				if !freshEntry(ret.Results[i], 0) {
+					okFresh = false
 				}
 				r.Check(okFresh, "fresh-stat", fnName(fn)+": the entry handed out is constructed (stat-ed) by this call", ret.Pos(),
 					"the entry returned is not the result of newRef or a fresh FileRef literal (e.g. a copy of a cached FileRef): its stat is the one taken when it was cached, not the host's current one")
@@ -886,4 +855,74 @@ func allowedList(m map[string]bool) string {
 		return "no mutating host call"
 	}
 	return strings.Join(ks, ", ")
+}
+
+// freshEntry: the entry value is constructed by the call that hands it out: the result of newRef, a FileRef literal
+// (its Info is checked by the literal rule), nil, or the result of a helper of the package all of whose returned
+// entries are fresh in turn (`ref.clone()`, `ref.walkNames(n, names)`).
+func freshEntry(v ssa.Value, depth int) bool {
+	if depth > 3 {
+		return false
+	}
+	out := stripConv(v)
+	if mi, ok := out.(*ssa.MakeInterface); ok {
+		out = stripConv(mi.X)
+	}
+	for _, alt := range phiAlternatives(out, 2) {
+		x := stripConv(alt)
+		if mi, ok := x.(*ssa.MakeInterface); ok {
+			x = stripConv(mi.X)
+		}
+		var call *ssa.Call
+		idx := 0
+		switch y := x.(type) {
+		case *ssa.Const:
+			if y.Value == nil {
+				continue
+			}
+			return false
+		case *ssa.Alloc:
+			if flds, _, ok := allocFields(y); ok {
+				if _, isLit := flds["Path"]; isLit {
+					continue
+				}
+			}
+			return false
+		case *ssa.Extract:
+			call, _ = y.Tuple.(*ssa.Call)
+			idx = y.Index
+		case *ssa.Call:
+			call = y
+		}
+		if call == nil {
+			return false
+		}
+		g := staticCallee(&call.Call)
+		if g == nil {
+			return false
+		}
+		if g.Name() == "newRef" {
+			if idx == 0 {
+				continue
+			}
+			return false
+		}
+		if g.Blocks == nil || g.Pkg == nil || g.Pkg.Pkg.Name() != "ufs" {
+			return false
+		}
+		n := 0
+		for _, ret := range returnsOf(g) {
+			if idx >= len(ret.Results) {
+				return false
+			}
+			n++
+			if !freshEntry(ret.Results[idx], depth+1) {
+				return false
+			}
+		}
+		if n == 0 {
+			return false
+		}
+	}
+	return true
 }
